@@ -232,6 +232,15 @@ def run(ctx, col: Collector):
             from ..cond import copy_subst
             fi = inlined_info(idx, idx.func(mod, fname), depth=2, keep={'name_to_dbml', 'quote_string', 'string_to_dbml', 'note_option_to_dbml', 'comment_to_dbml'})
             p = [a.arg for a in fi.node.args.args][0]
+            # `db = owner.database if owner else None` / `db = owner and owner.database`: where db is used under a truth test it IS owner.database
+            for a_ in ast.walk(fi.node):
+                if isinstance(a_, ast.Assign) and len(a_.targets) == 1 and isinstance(a_.targets[0], ast.Name):
+                    v_ = a_.value
+                    if isinstance(v_, ast.IfExp) and isinstance(v_.orelse, ast.Constant) and v_.orelse.value is None and access_path(v_.body):
+                        a_.value = v_.body
+                    elif isinstance(v_, ast.BoolOp) and isinstance(v_.op, ast.And) and access_path(v_.values[-1]) and all(
+                            access_path(x) and access_path(v_.values[-1]).startswith(access_path(x)) for x in v_.values[:-1]):
+                        a_.value = v_.values[-1]
             paths = paths_of(fi, 1)
 
             def emits(ev: Ev) -> bool:
